@@ -46,7 +46,8 @@ def plan(name, tier):
     fo = sweep.fo_args(name, tier)
     if slow:
         mod = sweep.thin(mod, 3)
-        fo = sweep.thin(fo, 3)
+        # keep every argument with a quantifier under (or over) a modal operator: these logics override both clauses
+        fo = [a for i, a in enumerate(fo) if i % 3 == 0 or (('M' in a or 'L' in a) and ('V' in a or 'S' in a))]
     elif tier != 'quick' and LOGICS[name].modal:
         # the first-order families mostly repeat the non-modal logic's behaviour; FO-modal arguments are kept
         fo = [a for i, a in enumerate(fo) if i % 2 == 0 or 'M' in a or 'L' in a]
